@@ -43,9 +43,20 @@ def _variants(body, want_model):
     }
 
 
-def _spawn(exe, text):
-    p = subprocess.Popen([exe, "-in"], stdin=subprocess.PIPE, stdout=subprocess.PIPE,
-                         stderr=subprocess.STDOUT, text=True)
+def _die_with_parent():
+    """solver children must never outlive the worker that started them (PR_SET_PDEATHSIG = SIGKILL)"""
+    try:
+        import ctypes
+        import signal
+        ctypes.CDLL("libc.so.6", use_errno=True).prctl(1, signal.SIGKILL)
+    except Exception:
+        pass
+
+
+def _spawn(exe, text, hard_s=None):
+    cmd = [exe, "-in"] + ([f"-T:{int(hard_s)}"] if hard_s else [])
+    p = subprocess.Popen(cmd, stdin=subprocess.PIPE, stdout=subprocess.PIPE,
+                         stderr=subprocess.STDOUT, text=True, preexec_fn=_die_with_parent)
     try:
         p.stdin.write(text)
         p.stdin.close()
@@ -78,7 +89,7 @@ class Persistent:
 
     def start(self):
         self.p = subprocess.Popen([self.exe, "-in"], stdin=subprocess.PIPE, stdout=subprocess.PIPE,
-                                  stderr=subprocess.STDOUT)
+                                  stderr=subprocess.STDOUT, preexec_fn=_die_with_parent)
         self.buf = b""
 
     def stop(self):
@@ -166,7 +177,7 @@ def solve(body, timeout_s=20.0, want_model=False, short_s=1.5):
         return _done("unknown", "", False, None, t0)
     # stage 2: the persistent solver keeps running; race it against z3 5.1 (two strategies)
     STATS["stage2"] += 1
-    procs = {k: _spawn(*var[k]) for k in ("z3_5.1_default", "z3_5.1_nlsat")}
+    procs = {k: _spawn(*var[k], hard_s=timeout_s + 10) for k in ("z3_5.1_default", "z3_5.1_nlsat")}
     deadline = t0 + timeout_s
     res = ("unknown", "", None)
     live = dict(procs)
